@@ -49,18 +49,31 @@ def pKind : P Kind := do
 def kindShow : Kind → String
   | .image => "Image" | .scalarImage => "ScalarImage" | .opticalImage => "OpticalImage"
 
+def scribbling (s : Option Stage) : Option Stage :=
+  s.map fun f => fun a => ((f a).1, { a with px := a.px.map fun p => p.map fun _ => 7 })
+
 def pCall : P String := do
   let opt ← pOpt; let first ← P.bool; let kind ← pKind
   let base ← P.opt pArr
   let n ← P.nat
   let extras ← P.rep pArr n
+  let nu ← P.nat
+  let updates ← P.rep pArr nu
   let probe ← pArr
+  let scr ← P.bool
   let r ← pStage; let b ← pStage; let rs ← pStage; let m ← pStage
-  let c : Config := { opt := opt, reduction := r, balancing := b, restoration := rs, model := m, restorationFirst := first }
-  let res := call c kind base extras probe
+  let w := fun (s : Option Stage) => if scr then scribbling s else s
+  -- the filter is learnt at construction with well-behaved copies (`probe_img = img.copy()` per extra baseline)
+  let c0 : Config := { opt := opt, reduction := r, balancing := b, restoration := rs, model := m, restorationFirst := first }
+  let c : Config := { c0 with reduction := w r, balancing := w b, restoration := w rs, model := w m }
+  let st := updates.foldl (fun s u => s.update (some u)) (AState.init c0 base extras)
+  let res := callSt c kind st probe
+  let op := callOp true c st probe
   let tr := res.trace.filter (fun p => p.1 != StageName.cleaning)
   let ts := ";".intercalate (tr.map fun p => p.1.show ++ "=" ++ showArr p.2)
-  pure s!"{ts}|{kindShow res.kind}|{showArr res.out}"
+  let showO := fun (a : Option Arr) => match a with | some a => showArr a | none => "none"
+  let outOp := showO (op.1[op.2]?)
+  pure s!"{ts}|{kindShow res.kind}|{showArr res.out}|{outOp}|{showO (op.1[0]?)}|{if st.base.isSome then showO (op.1[1]?) else "none"}"
 
 /-- `diffint <bits> <opt> <n> probe... <n> base...` → promoted differences, exact -/
 def pDiffInt : P String := do
